@@ -1,6 +1,7 @@
 package main
 
 import (
+	"encoding/json"
 	"flag"
 	"fmt"
 	"os"
@@ -40,6 +41,30 @@ func main() {
 				}
 			}
 		}
+	case "locals":
+		// baseline of local-variable names and types of every function under contract
+		// (written to contracts/locals.json when contracts are written or revised)
+		e, err := engine.Load("/repo", "/verif", []string{"./..."})
+		if err != nil {
+			fmt.Println(err)
+			os.Exit(2)
+		}
+		out := map[string][]engine.BaseLocal{}
+		for k := range e.Contracts {
+			fn := e.Funcs[k]
+			if fn == nil || fn.Blocks == nil {
+				continue
+			}
+			if ls := engine.LocalsOf(fn); len(ls) > 0 {
+				out[k] = ls
+			}
+		}
+		data, _ := json.MarshalIndent(out, "", " ")
+		if err := os.WriteFile("/verif/contracts/locals.json", append(data, '\n'), 0o644); err != nil {
+			fmt.Println(err)
+			os.Exit(2)
+		}
+		fmt.Printf("%d functions\n", len(out))
 	case "sweep":
 		cmdSweep(os.Args[2:])
 	case "list":
